@@ -323,7 +323,8 @@ class Check:
         self.extra = {}
         self.lock = threading.Lock()
         # replay directories of earlier runs of this check describe another tree: start clean
-        shutil.rmtree(os.path.join(OUT, "replay", pid), ignore_errors=True)
+        if not os.environ.get("VERIF_REPLAYING"):
+            shutil.rmtree(os.path.join(OUT, "replay", pid), ignore_errors=True)
         kf = os.path.join(VERIF, "known_findings.json")
         self.known = []
         if os.path.exists(kf):
